@@ -2,5 +2,5 @@ SPECIFICATION Spec
 CONSTANTS MaxLocals = 3
  MaxAlign = 16
  Variant = "ok"
-INVARIANTS Disjoint InFrame Aligned Array16
+INVARIANTS Disjoint InFrame Aligned Array16 InitCovers InitExact
 CHECK_DEADLOCK FALSE
